@@ -170,6 +170,26 @@ build m.o: cc m.c
           'not an error: ' + r.output)
 
 
+def t_depfile_unescaped(t):
+    # `depfile = $out.d` names the file WITHOUT shell quoting even when $out
+    # needs quoting on the command line
+    t.src('m.c')
+    t.src('h.h')
+    t.manifest('''
+rule cc
+  command = cp $in $out && printf '%s: %s h.h\\n' 'my\\ out.o' m.c > $out.d
+  depfile = $out.d
+  deps = gcc
+build my$ out.o: cc m.c
+''')
+    r = t.build()
+    check(r.ok, r.output)
+    check(t.build().ran_edges == [], 'quiet')
+    t.src('h.h', 'changed\n')
+    check(t.build().ran_edges == ['my out.o'], 'depfile of an output with a '
+          'blank must be found')
+
+
 def t_missing_and_errors(t):
     t.manifest('rule cp\n  command = cp $in $out\nbuild a.out: cp nope.in\n')
     r = t.build()
@@ -281,7 +301,8 @@ build b.out: cp2 a.in
 
 
 TESTS = [t_scoping, t_escapes, t_dirty_and_null, t_command_change,
-         t_phony_and_order_only, t_depfile_gcc, t_missing_and_errors,
+         t_phony_and_order_only, t_depfile_gcc, t_depfile_unescaped,
+         t_missing_and_errors,
          t_generator_regen, t_schedule, t_race_detected]
 
 
